@@ -21,4 +21,13 @@ def fromDef (d : DefArgs) : Option SigOut := fromDefWith visEval d
 /-- the signature pyanalyze derives from the function object -/
 def fromRuntime (d : DefArgs) : Option SigOut := fromInspect (inspectOf d)
 
+/-- the signature as the shared binder model (Core/Sig.lean, `Signature.bind_arguments`, verified
+against CPython in C05) consumes it: names, kinds, default presence -/
+def toBindSig (s : SigOut) : List Param := s.params.map fun p => ⟨p.name, p.kind, p.dflt.isSome⟩
+
+/-- the verdict of `bind_arguments` on a call (`none` = `incompatible_call`) and the declared types
+the bound arguments are then checked against -/
+def callView (s : SigOut) (args : List Arg) : Option (List (String × Pos)) × List Ty × Ty :=
+  (pyaCall (toBindSig s) args, s.params.map (·.ann), s.ret)
+
 end Pya.C13
